@@ -24,6 +24,11 @@
       the first image whose ID is N
       -> ok <pos,…|-> | err:invalid-image-index
 
+    hchat <variant> <limit> <srchex> <tmpl> <sysHex> <nModel> {msg}* <nReq> {msg}*
+      POST /api/chat end to end (ChatHandler with a mock runner whose tokenizer is strings.Fields):
+      the model's MESSAGEs, SYSTEM and TEMPLATE, the request's messages and num_ctx
+      -> load | ok imgs=<…> prompt=<hex>   (what the handler passes to Completion) | err…
+
     handler <sysHex> <nModel> {msg}* <nReq> {msg}*        (msg as above)
       ChatHandler's conversation: -> <role>:<contenthex>;…
 -/
@@ -208,6 +213,27 @@ def handle (toks : List String) : Option String :=
         | some _ =>
           let pos := tags.map fun k => (imgs.findIdx? (fun o => o.id = k)).getD 0
           if pos.isEmpty then "ok -" else s!"ok {joinWith "," (pos.map toString)}")) rest
+  | "hchat" :: rest =>
+    runTP (do
+      let variant ← nat
+      let limit ← int
+      let _src ← tok
+      let tmpl ← pTmpl rest.length
+      let sys ← hex
+      let mm ← listOf pMsg
+      let req ← listOf pMsg
+      let cfg : Cfg := ⟨variant % 2 != 0, false, 0, limit⟩
+      let tv : TVar := ⟨variant / 2 % 4, variant / 8 % 2 != 0⟩
+      pure (match req, tmpl with
+        | [], _ => "load"
+        | _, none => "opaque"
+        | _, some t =>
+          match chatPromptT cfg tv t 0 (handlerMsgs mm sys req) with
+          | .panicEmpty => "panic:empty"
+          | .errTooMany => "err:too-many-images"
+          | .errPreprocess => "err:preprocess"
+          | .tmplErr e => showErr e
+          | .ok _ _ _ _ imgs p => s!"ok imgs={showImgs imgs} prompt={hexOrDash p}")) rest
   | "handler" :: rest =>
     runTP (do
       let sys ← hex
